@@ -198,6 +198,27 @@ def job(chk, item):
         chk.extra_lists.setdefault('per_job', []).append({'cases': len(results), 'paths': sum(r.paths for r in results),
                                                           'paths_with_reports': sum(r.flagged for r in results), 'paths_without': sum(r.silent for r in results)})
         return
+    if item and item[0] == 'composed':
+        # several members of the family in ONE file (their top-level parts concatenated in the drawn order, one pragma): the verdict on
+        # every declaration must be what it is in the member's own file -- nothing carries over between declarations, contracts or items
+        from ..engine import Adt, VecV
+        for combo in item[1]:
+            for d in DETECTORS:
+                COUNTER[0] = 0
+                b = sol.TreeBuilder()
+                parts, labels = [], []
+                for k in combo:
+                    label, build = all_cases[k]
+                    su_k = build(b)
+                    ps = list(su_k.fields[0].items)
+                    parts += [p_ for p_ in ps if p_.variant != 'PragmaDirective' or not parts]
+                    labels.append(label)
+                su = b.source_unit(parts)
+                results.append(fam.run_case(chk, e, d, su, 'composed: ' + ' || '.join(labels), {v.decl().name() for v in b.loc_vars}))
+        fam.flush_validation(chk, results)
+        chk.extra_lists.setdefault('per_job', []).append({'cases': len(results), 'paths': sum(r.paths for r in results),
+                                                          'paths_with_reports': sum(r.flagged for r in results), 'paths_without': sum(r.silent for r in results)})
+        return
     for idx in item:
         label, build = all_cases[idx]
         for d in DETECTORS:
@@ -223,9 +244,13 @@ def body(chk):
     chk.bounds = {'files': '%d of %d declaration shapes x 5 detectors' % (len(idx), n),
                   'shapes': 'function kind x visibility x payable x body x underscore x contract kind; variable type x visibility x constant/immutable x underscore; '
                             'member sequences up to length 3 (+ selected longer) over function/modifier/constructor/receive/variable in 1-3 contracts and with free functions',
+                  'composed files': '60 (thorough 600) seeded files made of 2-4 members of the family each',
                   'outside': 'more than one function attribute of a kind; override/virtual attributes (not inspected by the detectors)'}
     chk.assumptions = ['as C05; state-variable names unique within the file (the property\'s precondition)']
     chunks = [idx[k:k + 30] for k in range(0, len(idx), 30)] + [['symbolic']]
+    ncomp = 60 if chk.quick else 600
+    combos = [[chk.rng.randrange(n) for _ in range(chk.rng.choice([2, 3, 4]))] for _ in range(ncomp)]
+    chunks += [['composed', combos[k:k + 15]] for k in range(0, ncomp, 15)]
     chk.parallel(job, chunks)
     rep = sum(j['paths_with_reports'] for j in chk.extra_lists.get('per_job', []))
     sil = sum(j['paths_without'] for j in chk.extra_lists.get('per_job', []))
